@@ -125,13 +125,30 @@ def fast_exits(chk, runs):
     return None
 
 
+def many_fast_parallel(chk, runs, n=60, jobs=8):
+    """(d) many immediately exiting tasks with several in flight: every exit must be observed by Conductor's own
+    handler -- anything else in the process that reaps children (e.g. subprocess's clean-up of abandoned Popen objects
+    at the next spawn) makes an exit disappear and the run wait forever"""
+    cond = "\n".join('run_command(name="c%d", run="true", parallelizable=True)' % i for i in range(n))
+    cond += '\ncombine(name="all", deps=[%s])\n' % ", ".join('":c%d"' % i for i in range(n))
+    root = implrun.make_project({"COND": cond})
+    for r in range(runs):
+        res = implrun.run_cond(["run", "//:all", "-j", str(jobs)], root, timeout=40)
+        chk.coverage["evaluations"] += 1
+        text = strip_ansi(res.out + res.err)
+        if res.code != 0 or "Done!" not in text:
+            return "cond run -j%d of %d immediately exiting parallelizable tasks ended with %s (a timeout means it never terminated) in run %d: %r" % (jobs, n, res.code, r, text[-300:])
+    return None
+
+
 def reaper_scenarios(chk, tier):
     scen = [("batch-exits-j2", lambda: batch_exits(chk, 2, 2)), ("batch-exits-j3-of-4", lambda: batch_exits(chk, 4, 3)),
             ("unrelated-child-7-then-0", lambda: unrelated_child(chk, 7, 0)), ("unrelated-child-0-then-3", lambda: unrelated_child(chk, 0, 3)),
-            ("fast-exits", lambda: fast_exits(chk, 12 if tier == "quick" else 200))]
+            ("fast-exits", lambda: fast_exits(chk, 12 if tier == "quick" else 200)),
+            ("many-fast-parallel", lambda: many_fast_parallel(chk, 3 if tier == "quick" else 30))]
     reps = 1 if tier == "quick" else 5
     for name, fn in scen:
-        for _ in range(reps if name != "fast-exits" else 1):
+        for _ in range(reps if name not in ("fast-exits", "many-fast-parallel") else 1):
             msg = fn()
             chk.coverage["evaluations"] += 1
             chk.count("reaper", name)
